@@ -655,8 +655,61 @@ fn op_new(toks: &[Tok], prop: &str) -> Outcome {
     Outcome { result: w.0, oracle }
 }
 
+/// 5 TS_CONCURRENT: the conversions run on four threads at once, each walking the values from another starting
+/// point, many times; every result must be the one a lone call gives
+fn op_ts_concurrent(toks: &[Tok], prop: &str) -> Outcome {
+    let mut r = R::new(toks);
+    let ms = r.bool();
+    let n = r.n();
+    let vals: Vec<u64> = (0..n).map(|_| r.n() as u64).collect();
+    let conv = move |v: u64| if ms { DltTimeStamp::from_ms(v) } else { DltTimeStamp::from_us(v) };
+    let mut w = W::new();
+    let mut oracle = vec![];
+    let single: Vec<Option<(u32, u32)>> = vals.iter().map(|v| guarded(|| conv(*v)).map(|t| (t.seconds, t.microseconds))).collect();
+    for x in &single {
+        match x {
+            Some((s, u)) => {
+                w.n(0);
+                w.ts(&DltTimeStamp { seconds: *s, microseconds: *u })
+            }
+            None => w.n(1),
+        }
+    }
+    if single.iter().all(|x| x.is_some()) && !vals.is_empty() {
+        let vals = std::sync::Arc::new(vals);
+        let single = std::sync::Arc::new(single);
+        let handles: Vec<_> = (0..4usize)
+            .map(|t| {
+                let (vals, single) = (vals.clone(), single.clone());
+                std::thread::spawn(move || {
+                    let n = vals.len();
+                    for round in 0..400usize {
+                        for k in 0..n {
+                            let i = (k * (t + 1) + round + t * 7) % n;
+                            let got = std::panic::catch_unwind(|| conv(vals[i])).ok().map(|x| (x.seconds, x.microseconds));
+                            if got != single[i] {
+                                return Some((vals[i], got, single[i]));
+                            }
+                        }
+                    }
+                    None
+                })
+            })
+            .collect();
+        for h in handles {
+            if let Ok(Some((v, got, want))) = h.join() {
+                if prop == "C17" && oracle.is_empty() {
+                    oracle.push(("thread_safe".into(), format!("input {} converted while other threads convert: {:?}, alone: {:?}", v, got, want)));
+                }
+            }
+        }
+    }
+    Outcome { result: w.0, oracle }
+}
+
 pub fn run_case(prop: &str, op: u32, toks: &[Tok]) -> Outcome {
     match op {
+        5 => op_ts_concurrent(toks, prop),
         1 => op_ts(true, toks, prop),
         2 => op_ts(false, toks, prop),
         3 => op_zstr(toks, prop),
